@@ -1202,7 +1202,7 @@ func interpAllowed(name string) bool {
 	switch name {
 	case "errors.New", "(*errors.errorString).Error",
 		"(*crypto/ecdsa.PrivateKey).Public", "(crypto/ed25519.PrivateKey).Public", "(*crypto/rsa.PrivateKey).Public",
-		"(*crypto/ed25519.PrivateKey).Public", "(*crypto/rsa.PublicKey).Size",
+		"(*crypto/ed25519.PrivateKey).Public", "(*crypto/rsa.PublicKey).Size", "(*crypto/rsa.PSSOptions).HashFunc", "(*crypto/rsa.PSSOptions).saltLength",
 		"(encoding/binary.bigEndian).PutUint16", "(encoding/binary.bigEndian).PutUint32", "(encoding/binary.bigEndian).PutUint64",
 		"(encoding/binary.bigEndian).AppendUint16", "(encoding/binary.bigEndian).AppendUint32", "(encoding/binary.bigEndian).AppendUint64",
 		"(encoding/binary.littleEndian).AppendUint16", "(encoding/binary.littleEndian).AppendUint32", "(encoding/binary.littleEndian).AppendUint64",
